@@ -35,17 +35,26 @@
    Traced = callers with a TraceConfig whose callbacks suspend.  TraceLeakFix /
    ReuseLeakFix = TRUE model the repaired code: a connection whose create_end /
    reuseconn trace callback is cancelled (or raises) is closed; FALSE is the code as
-   found, where that connection stayed open and tracked by nobody (NoUntracked).      *)
+   found, where that connection stayed open and tracked by nobody (NoUntracked).
+
+   Keep-alive expiry (MaxExpire > 0): TimePasses lets the clock run past keepalive_timeout,
+   so every connection that is idle in the pool becomes stale (its transport is still open).
+   A stale connection is never handed out: _get() pops and CLOSES it when it comes across it,
+   and the _cleanup() timer (armed by the first release into an empty-handed pool, re-armed
+   while the pool is not empty, cancelled by close()) closes and removes all stale and dead
+   ones.  timer: off | armed | due.                                                     *)
 EXTENDS Naturals, Sequences, FiniteSets, TLC
 
 CONSTANTS Tasks, Keys, KeyOf, L, Lh, Handoff, ReuseChecksLimit, MaxCancel, MaxFail, AllowClose, AllowPeerClose,
-          Traced, TraceLeakFix, ReuseLeakFix, RequeueHandoff
+          Traced, TraceLeakFix, ReuseLeakFix, RequeueHandoff, MaxExpire
 
 VARIABLES pc, holds, acquired, acqHost, idle, alive, waiters, fut, cres, ready,
-          mustCancel, closed, nCancel, nFail, attempts
+          mustCancel, closed, nCancel, nFail, attempts,
+          stale, timer, nExpire
 
-vars == <<pc, holds, acquired, acqHost, idle, alive, waiters, fut, cres, ready,
+cvars == <<pc, holds, acquired, acqHost, idle, alive, waiters, fut, cres, ready,
           mustCancel, closed, nCancel, nFail, attempts>>
+vars == <<cvars, stale, timer, nExpire>>
 
 NoConn == "none"
 Ph(t) == <<"ph", t>>           \* _TransportPlaceholder of task t
@@ -66,6 +75,9 @@ Init ==
     /\ closed = FALSE
     /\ nCancel = 0 /\ nFail = 0
     /\ attempts = [t \in Tasks |-> 0]
+    /\ stale = {}                          \* idle connections whose keep-alive time is over
+    /\ timer = "off"                       \* the _cleanup() timer handle
+    /\ nExpire = 0
 
 Min(a, b) == IF a < b THEN a ELSE b
 
@@ -111,8 +123,13 @@ ReleaseAcquired(k, h, w, f, r) ==
 (* for one loop turn (await sleep(0)): each `await trace.send_...()` is an   *)
 (* extra suspension point - pcs qstart, qend, cstart, cend, reuse.           *)
 
+\* reusable: still connected and not past its keep-alive time
+Usable(c) == alive[c] /\ c \notin stale
 RECURSIVE FirstAlive(_)
-FirstAlive(q) == IF q = <<>> THEN <<>> ELSE IF alive[Head(q)] THEN q ELSE FirstAlive(Tail(q))
+FirstAlive(q) == IF q = <<>> THEN <<>> ELSE IF Usable(Head(q)) THEN q ELSE FirstAlive(Tail(q))
+\* the entries _get() pops before it reaches q's first reusable one: each is closed (proto.close())
+Dropped(q) == {q[i] : i \in 1..(Len(q) - Len(FirstAlive(q)))}
+CloseAll(S) == [c \in Tasks |-> IF c \in S THEN FALSE ELSE alive[c]]
 
 Tr(t) == t \in Traced
 
@@ -128,7 +145,8 @@ GetIdle(t, f2, r0) ==
        /\ pc' = [pc EXCEPT ![t] = IF Tr(t) THEN "reuse" ELSE "holding"]   \* await send_connection_reuseconn()
        /\ ready' = IF Tr(t) THEN Append(r0, t) ELSE r0
        /\ fut' = f2
-       /\ UNCHANGED <<alive, waiters, cres, closed, nCancel, nFail, attempts>>
+       /\ alive' = CloseAll(Dropped(idle[k]))
+       /\ UNCHANGED <<waiters, cres, closed, nCancel, nFail, attempts>>
 
 NoIdle(t) == FirstAlive(idle[KeyOf[t]]) = <<>>
 
@@ -141,7 +159,8 @@ Reserve(t, f2, r0) ==   \* placeholder; then (traced: await create_start;) await
     /\ pc' = [pc EXCEPT ![t] = IF Tr(t) THEN "cstart" ELSE "creating"]
     /\ ready' = IF Tr(t) THEN Append(r0, t) ELSE r0
     /\ fut' = f2
-    /\ UNCHANGED <<holds, alive, waiters, closed, nCancel, nFail, attempts>>
+    /\ alive' = CloseAll(SeqToSet(idle[k]))
+    /\ UNCHANGED <<holds, waiters, closed, nCancel, nFail, attempts>>
 
 Enqueue(t, front, r0) ==
     LET k == KeyOf[t] IN
@@ -149,7 +168,7 @@ Enqueue(t, front, r0) ==
     /\ fut' = [fut EXCEPT ![t] = "pending"]
     /\ pc' = [pc EXCEPT ![t] = IF Tr(t) THEN "qstart" ELSE "waiting"]      \* await send_connection_queued_start()
     /\ ready' = IF Tr(t) THEN Append(r0, t) ELSE r0
-    /\ UNCHANGED <<holds, acquired, acqHost, alive, cres, closed, nCancel, nFail>>
+    /\ UNCHANGED <<holds, acquired, acqHost, cres, closed, nCancel, nFail>>
 
 \* first step of connect()
 ConnectBody(t, r0) ==
@@ -157,8 +176,10 @@ ConnectBody(t, r0) ==
        /\ GetIdle(t, fut, r0)
     \/ /\ NoIdle(t) \/ (ReuseChecksLimit /\ Avail(KeyOf[t]) <= 0)
        /\ IF Avail(KeyOf[t]) <= 0
-          THEN Enqueue(t, FALSE, r0) /\ UNCHANGED attempts
-               /\ idle' = IF NoIdle(t) THEN [idle EXCEPT ![KeyOf[t]] = <<>>] ELSE idle
+          THEN /\ Enqueue(t, FALSE, r0)
+               /\ UNCHANGED attempts
+               /\ idle' = (IF NoIdle(t) THEN [idle EXCEPT ![KeyOf[t]] = <<>>] ELSE idle)
+               /\ alive' = (IF NoIdle(t) THEN CloseAll(SeqToSet(idle[KeyOf[t]])) ELSE alive)
           ELSE Reserve(t, fut, r0)
 
 \* after a wake-up (and the queued_end trace): re-check capacity
@@ -224,7 +245,7 @@ FinishCreate(t, r0) ==
 
 (* ---------------------------------------------------------------------- *)
 (* One loop step: run the head of the ready queue.                           *)
-Step(t) ==
+StepCore(t) ==
     /\ ready # <<>> /\ Head(ready) = t
     /\ LET r0 == Tail(ready)
            k == KeyOf[t]
@@ -290,20 +311,20 @@ Step(t) ==
 
 (* ---------------------------------------------------------------------- *)
 (* Environment                                                              *)
-Spawn(t) ==
+SpawnCore(t) ==
     /\ pc[t] = "new"
     /\ pc' = [pc EXCEPT ![t] = "spawned"]
     /\ ready' = Append(ready, t)
     /\ UNCHANGED <<holds, acquired, acqHost, idle, alive, waiters, fut, cres, mustCancel, closed, nCancel, nFail, attempts>>
 
-CreateOk(t) ==
+CreateOkCore(t) ==
     /\ pc[t] = "creating" /\ cres[t] = "pending"
     /\ cres' = [cres EXCEPT ![t] = "ok"]
     /\ alive' = [alive EXCEPT ![t] = TRUE]
     /\ ready' = Append(ready, t)
     /\ UNCHANGED <<pc, holds, acquired, acqHost, idle, waiters, fut, mustCancel, closed, nCancel, nFail, attempts>>
 
-CreateFail(t) ==
+CreateFailCore(t) ==
     /\ pc[t] = "creating" /\ cres[t] = "pending" /\ nFail < MaxFail
     /\ cres' = [cres EXCEPT ![t] = "fail"]
     /\ ready' = Append(ready, t)
@@ -312,7 +333,7 @@ CreateFail(t) ==
 
 InReady(t) == t \in SeqToSet(ready)
 
-Cancel(t) ==        \* Task.cancel(): by the caller, by wait_for, or by the connect timeout
+CancelCore(t) ==        \* Task.cancel(): by the caller, by wait_for, or by the connect timeout
     /\ nCancel < MaxCancel
     /\ pc[t] \in {"spawned", "waiting", "creating", "qstart", "qend", "cstart", "cend", "reuse"}
     /\ ~mustCancel[t] /\ fut[t] # "cancelled" /\ cres[t] # "cancelled"
@@ -329,7 +350,7 @@ Cancel(t) ==        \* Task.cancel(): by the caller, by wait_for, or by the conn
             /\ UNCHANGED <<fut, cres, ready>>
     /\ UNCHANGED <<pc, holds, acquired, acqHost, idle, alive, waiters, closed, nFail, attempts>>
 
-Release(t, close) ==       \* Connection.release() / Connection.close()
+ReleaseCore(t, close) ==       \* Connection.release() / Connection.close()
     /\ pc[t] = "holding"
     /\ LET k == KeyOf[t]
            c == holds[t]
@@ -342,14 +363,14 @@ Release(t, close) ==       \* Connection.release() / Connection.close()
     /\ holds' = [holds EXCEPT ![t] = NoConn]
     /\ UNCHANGED <<cres, mustCancel, closed, nCancel, nFail, attempts>>
 
-PeerCloseIdle(c) ==        \* the server closes a pooled keep-alive connection
+PeerCloseIdleCore(c) ==        \* the server closes a pooled keep-alive connection
     /\ AllowPeerClose
     /\ \E k \in Keys : c \in SeqToSet(idle[k])
     /\ alive[c]
     /\ alive' = [alive EXCEPT ![c] = FALSE]
     /\ UNCHANGED <<pc, holds, acquired, acqHost, idle, waiters, fut, cres, ready, mustCancel, closed, nCancel, nFail, attempts>>
 
-Close ==                   \* connector.close() -> _close_immediately()
+CloseCore ==                   \* connector.close() -> _close_immediately()
     /\ AllowClose /\ ~closed
     /\ closed' = TRUE
     /\ alive' = [c \in Tasks |-> FALSE]        \* idle and acquired protocols are closed
@@ -367,12 +388,53 @@ Close ==                   \* connector.close() -> _close_immediately()
     /\ waiters' = [k \in Keys |-> <<>>]
     /\ UNCHANGED <<pc, holds, cres, mustCancel, nCancel, nFail, attempts>>
 
+IdleSet == UNION {SeqToSet(idle[k]) : k \in Keys}
+
+(* Keep-alive bookkeeping of the steps above: a connection that leaves the pool is no longer
+   stale-in-the-pool; _release() arms the _cleanup() timer when it pools a connection and no
+   timer exists; close() cancels it.                                                       *)
+Bookkeeping ==
+    /\ stale' = stale \cap UNION {SeqToSet(idle'[k]) : k \in Keys}
+    /\ timer' = IF closed' /\ ~closed THEN "off"
+                ELSE IF timer = "off" /\ \E k \in Keys : Len(idle'[k]) > Len(idle[k]) THEN "armed"
+                ELSE timer
+    /\ UNCHANGED nExpire
+
+\* the clock passes keepalive_timeout: everything that sits in the pool now is too old to be reused
+TimePasses ==
+    /\ nExpire < MaxExpire /\ ~closed
+    /\ \E c \in IdleSet : Usable(c)
+    /\ stale' = stale \cup {c \in IdleSet : alive[c]}
+    /\ timer' = IF timer = "armed" THEN "due" ELSE timer
+    /\ nExpire' = nExpire + 1
+    /\ UNCHANGED cvars
+
+\* the _cleanup() timer fires: stale and dead pooled connections are closed and dropped
+Cleanup ==
+    /\ timer = "due"
+    /\ idle' = [k \in Keys |-> SelectSeq(idle[k], Usable)]
+    /\ alive' = CloseAll({c \in IdleSet : ~Usable(c)})
+    /\ stale' = stale \ IdleSet
+    /\ timer' = IF \E k \in Keys : SelectSeq(idle[k], Usable) # <<>> THEN "armed" ELSE "off"
+    /\ UNCHANGED <<pc, holds, acquired, acqHost, waiters, fut, cres, ready, mustCancel, closed, nCancel, nFail, attempts, nExpire>>
+
+Step(t) == StepCore(t) /\ Bookkeeping
+Spawn(t) == SpawnCore(t) /\ Bookkeeping
+CreateOk(t) == CreateOkCore(t) /\ Bookkeeping
+CreateFail(t) == CreateFailCore(t) /\ Bookkeeping
+Cancel(t) == CancelCore(t) /\ Bookkeeping
+Release(t, close) == ReleaseCore(t, close) /\ Bookkeeping
+PeerCloseIdle(c) == PeerCloseIdleCore(c) /\ Bookkeeping
+Close == CloseCore /\ Bookkeeping
+
 Next ==
     \/ \E t \in Tasks : Step(t)
     \/ \E t \in Tasks : Spawn(t) \/ CreateOk(t) \/ CreateFail(t) \/ Cancel(t)
     \/ \E t \in Tasks, c \in BOOLEAN : Release(t, c)
     \/ \E c \in Tasks : PeerCloseIdle(c)
     \/ Close
+    \/ TimePasses
+    \/ Cleanup
 
 Spec == Init /\ [][Next]_vars
 FairSpec == Spec /\ \A t \in Tasks : WF_vars(Step(t)) /\ WF_vars(Release(t, FALSE)) /\ WF_vars(CreateOk(t))
@@ -426,6 +488,11 @@ CloseStep ==
         /\ \A t \in Tasks : fut'[t] # "pending"
         /\ \A t \in Tasks : (pc[t] = "waiting" /\ fut[t] = "pending") => t \in SeqToSet(ready')
 CloseFailsAll == [][CloseStep]_vars
+
+\* a connection past its keep-alive time is in the pool or nowhere: it is never handed out,
+\* and one that _get()/_cleanup() dropped has been closed (it is covered by NoUntracked as well)
+StaleStaysPooled == stale \subseteq IdleSet
+TimerSane == (timer = "off" /\ ~closed) => IdleSet = {}
 
 IdleDistinct ==
     \A k \in Keys : \A i, j \in 1..Len(idle[k]) : i # j => idle[k][i] # idle[k][j]
